@@ -116,7 +116,7 @@ def make_args(rng, kinds):
     spec = {}
     for k in kinds:
         if k == 'dfa':
-            spec[k] = gen.random_dfa(rng, 4, Sig)
+            spec[k] = gen.counter_dfa(rng) if rng.random() < 0.25 else gen.random_dfa(rng, 4, Sig)
         elif k == 'dfa2':
             spec[k] = gen.random_dfa(rng, 3, Sig, lambda i: 'p%d' % i)
         elif k == 'nfa':
